@@ -1,6 +1,7 @@
 use crate::{
     consts::{FELT_0, FELT_1, FELT_2},
     dynamic::DynamicParams,
+    layout::PublicInputError,
     types::{ContinuousPageHeader, Page, SegmentInfo},
 };
 use alloc::vec;
@@ -89,6 +90,39 @@ impl PublicInput {
         let total_length = Felt::from(self.main_page.len()) + continuous_pages_total_length;
 
         (prod, total_length)
+    }
+
+    /// Returns the values of the main-page cells that hold the program (the first `program_len`
+    /// cells, at addresses `initial_pc`, `initial_pc + 1`, ...) and the output (the last
+    /// `output_len` cells, at addresses `output_start`, `output_start + 1`, ...). A page that is
+    /// too short, or whose cells sit at other addresses, is an error.
+    pub fn get_program_and_output(
+        &self,
+        initial_pc: Felt,
+        program_len: usize,
+        output_start: Felt,
+        output_len: usize,
+    ) -> Result<(Vec<Felt>, Vec<Felt>), PublicInputError> {
+        let page_len = self.main_page.len();
+        let total = program_len.checked_add(output_len).ok_or(PublicInputError::MainPageInvalid)?;
+        if total > page_len {
+            return Err(PublicInputError::MainPageInvalid);
+        }
+        let collect = |cells: &[crate::types::AddrValue], first_addr: Felt| {
+            let mut values = Vec::with_capacity(cells.len());
+            let mut expected = first_addr;
+            for cell in cells {
+                if cell.address != expected {
+                    return Err(PublicInputError::MainPageInvalid);
+                }
+                values.push(cell.value);
+                expected += FELT_1;
+            }
+            Ok(values)
+        };
+        let program = collect(&self.main_page[..program_len], initial_pc)?;
+        let output = collect(&self.main_page[page_len - output_len..], output_start)?;
+        Ok((program, output))
     }
 
     #[cfg_attr(feature = "stone5", allow(unused_variables))]
